@@ -93,7 +93,7 @@ from collections.abc import Callable
 
 
 def make_module(name: str, source: str, prelude: bool = True,
-                register_source: bool = True) -> types.ModuleType:
+                register_source: bool = True, filename: str | None = None) -> types.ModuleType:
     """Executes `source` as the body of a synthetic module whose source text is
     retrievable through linecache (so `inspect.getsourcelines` works) and whose
     module-level frame has `f_locals is module.__dict__`."""
@@ -101,7 +101,7 @@ def make_module(name: str, source: str, prelude: bool = True,
     _counter += 1
     if prelude:
         source = PRELUDE + source
-    filename = f"<verif:{name}:{_counter}>"
+    filename = filename or f"<verif:{name}:{_counter}>"     # an existing name = edited in place
     lines = source.splitlines(True)
     if register_source:     # otherwise: definitions whose source cannot be retrieved
         linecache.cache[filename] = (len(source), None, lines, filename)
